@@ -86,7 +86,7 @@ def expected_args(call, f, gt):
     return {n: T.tnorm(gt(call.params[n])) for n in named_params(f["params"]) if n in call.params}
 
 
-def check(lp, J, logs, k, get_type, prefix="C02", sampled=False, tracer_residue=None, live_frames=None, admitted=None, stats=None):
+def check(lp, J, logs, k, get_type, prefix="C02", sampled=False, tracer_residue=None, live_frames=None, admitted=None, stats=None, traced_pred=None):
     """Returns (violations, evaluated_count, info).
 
     logs: list of (CallTrace, journal_len_at_log_time)
@@ -94,6 +94,7 @@ def check(lp, J, logs, k, get_type, prefix="C02", sampled=False, tracer_residue=
     """
     V = []
     gt = lambda v: get_type(v, k)  # noqa: E731
+    conflict_pred = traced_pred if traced_pred is not None else admitted
     calls, order = parse_journal(J)
     evaluated = 0
     # --- map logs to fixture functions
@@ -122,7 +123,7 @@ def check(lp, J, logs, k, get_type, prefix="C02", sampled=False, tracer_residue=
         cands = [c for c in want.get((fid, pos), []) if c.cid not in taken]
         adm_ok = bool(cands) and (admitted(fid) if admitted else True)
         if not cands or not adm_ok:
-            V.append({"clause": prefix + (".subset-faithful" if sampled else ".once"), "cause": None,
+            V.append({"clause": prefix + (".subset-faithful" if sampled else ".once"), "cause": "code_equality_ignores_filename" if twin_conflict(lp, fid, conflict_pred) else None,
                       "site": {"fid": fid, "kind": f["kind"], "body": f["body"], "log_pos": pos, "admitted": (admitted(fid) if admitted else True)},
                       "msg": "logged trace of %s matches no completed admitted call at that moment (duplicate, early, late, or not admitted)" % fname(f)})
             continue
@@ -148,15 +149,53 @@ def check(lp, J, logs, k, get_type, prefix="C02", sampled=False, tracer_residue=
             continue
         if sampled or not definite(lp, f):
             continue
-        V.append(missing(prefix, c, f, lp))
+        V.append(missing(prefix, c, f, lp, conflict_pred))
     evaluated += len(comps)
     # --- per-trace faithfulness
     for c, tr in matched:
         f = lp.funcs[c.fid]
+        if twin_conflict(lp, c.fid, conflict_pred):
+            # equal-but-not-identical code objects: which copy a trace is attributed to is the known
+            # cache defect (reported under .once); per-trace clauses are not judged for these
+            continue
         evaluated += 1
         V.extend(faithful(prefix, lp, c, f, tr, gt, sampled))
     info = {"completed": len(comps), "logged": len(flogs), "foreign_logs": foreign, "matched": len(matched)}
     return V, evaluated, info, calls, comps, matched
+
+
+def twin_related(lp, fid):
+    """Does this function exist twice with equal-but-not-identical code objects (twin modules)?"""
+    f = lp.funcs.get(fid) or {}
+    if "twin_of" in f or "src_fid" in f:
+        return True
+    return any(g.get("twin_of") == fid or (g.get("src_fid") == fid and g is not f) for g in lp.funcs.values())
+
+
+def twin_partner(lp, fid):
+    f = lp.funcs.get(fid) or {}
+    if "twin_of" in f:
+        return f["twin_of"]
+    if "src_fid" in f:
+        # inner function of a twin: partner is the inner function of the original
+        return f["src_fid"]
+    for g in lp.funcs.values():
+        if g.get("twin_of") == fid or (g.get("src_fid") == fid and g is not f):
+            return g["fid"]
+    return None
+
+
+def twin_conflict(lp, fid, admitted):
+    """The tracer's code-keyed cache can confuse this function with its twin only if BOTH copies
+    are traced (a copy the filter rejects never enters the cache)."""
+    p = twin_partner(lp, fid)
+    if p is None:
+        return False
+    if admitted is None:
+        return True
+    if getattr(admitted, "takes_pair", False):
+        return bool(admitted(fid, p))
+    return bool(admitted(fid)) and bool(admitted(p))
 
 
 def fname(f):
@@ -169,10 +208,12 @@ def viol(clause, cause, c, f, msg):
             "msg": msg}
 
 
-def missing(prefix, c, f, lp):
+def missing(prefix, c, f, lp, admitted=None):
     cause = None
     if f["body"] == "gen" and c.end == "X" and c.at_yield:
         cause = "generator_exit_at_yield"
+    elif twin_conflict(lp, c.fid, admitted):
+        cause = "code_equality_ignores_filename"
     return viol(prefix + ".once", cause, c, f, "completed call of %s (end=%s %s) was not logged" % (fname(f), c.end, c.exc or ""))
 
 
